@@ -26,6 +26,7 @@ func checkC16(c *Ctx, r *Report) {
 	checkWholeOps(c, r)
 	checkWholeOps2(c, r)
 	checkGetRowWhole(c, r)
+	checkMatrixParse(c, r)
 	checkBitArrayHistories(c, r)
 	checkSetRowWhole(c, r)
 	r.Note("decided: the single-bit operations, per-word mask transitions, argument guards, word-geometry formulae, unconditional bit reversal in the 180-degree rotations and paired-slice loop bounds. Not decided: the model equivalence the property states over operation histories (rotation realignment shifts, GetNextSet/Unset scanning, growth) — run-time by nature")
@@ -1468,7 +1469,7 @@ func checkWholeOps2(c *Ctx, r *Report) {
 
 // S-GETROW: BitMatrix.GetRow with every kind of caller-supplied buffer
 func checkGetRowWhole(c *Ctx, r *Report) {
-	r.Rule("S-GETROW", "BitMatrix.GetRow, folded from source together with NewBitArray / Clear / SetBulk / GetSize, returns for every row of matrices of width 20, 32, 33, 64 and 70 and for no buffer, a too small buffer, a buffer of the same size and a larger buffer full of ones, an array that holds the row's bits at 0..width-1 and nothing else (no stale bit of the buffer at or beyond the width), of size at least the width, and reuses the caller's buffer exactly when it is large enough", 1)
+	r.Rule("S-GETROW", "BitMatrix.GetRow, folded from source together with NewBitArray / Clear / SetBulk / GetSize, returns for every row of matrices of width 20, 32, 33, 64 and 70 and for no buffer, a too small buffer, a buffer of the same size and a larger buffer full of ones, an array that holds the row's bits at 0..width-1 and nothing else (no stale bit of the buffer at or beyond the width), of size at least the width, reuses the caller's buffer exactly when it is large enough, and never shares its words with the matrix (a word written into the result does not show in the matrix's store)", 1)
 	fd, p := c.funcDeclOf("", "BitMatrix.GetRow")
 	key := "gozxing.BitMatrix.GetRow/whole"
 	if fd == nil {
@@ -1539,6 +1540,22 @@ func checkGetRowWhole(c *Ctx, r *Report) {
 					bad = "?" + what + ": the result's words are not constants"
 					break
 				}
+				// the extracted row is storage of its own: a word written into it does not show in the matrix
+				if ol := out.Fields["bits"].L; len(ol) > 0 {
+					keep, marker := ol[0], u32(0x5A5A5A5A)
+					ol[0] = marker
+					shared := false
+					for _, mw := range mbits.L {
+						if mw == marker {
+							shared = true
+						}
+					}
+					ol[0] = keep
+					if shared {
+						bad = what + ": the array returned shares its words with the matrix - a bit set in the extracted row changes the matrix, and later writes to the matrix change the row"
+						break
+					}
+				}
 				for i := int64(0); i < int64(len(ws))*32; i++ {
 					got := uint32(ws[i/32])>>(uint(i)%32)&1 == 1
 					want := i < w && pat(i, y)
@@ -1560,7 +1577,7 @@ func checkGetRowWhole(c *Ctx, r *Report) {
 
 // S-HIST: short histories of a bit array folded from the source, storage included
 func checkBitArrayHistories(c *Ctx, r *Report) {
-	r.Rule("S-HIST", "bit arrays built the way callers build them - NewEmptyBitArray or NewBitArray(n) for n = 0, 1, 31, 32, 33, then 0..70 appended bits (AppendBit, and AppendBits in groups of 10) - are folded from the source with their real storage (constructor, ensureCapacity and makeArray included, so whatever spare words the growth policy leaves are there), then reversed: after every history the size is the number of bits put in, bit i of the store is the model's bit for i < size and clear for every i from size to the end of the store, and after Reverse bit i is the model's bit size-1-i; dst.AppendBitArray(src), for empty and non-empty dst, leaves dst holding both bit strings, src unchanged, and the two arrays independent (a bit flipped in one does not show in the other)", 1)
+	r.Rule("S-HIST", "bit arrays built the way callers build them - NewEmptyBitArray or NewBitArray(n) for n = 0, 1, 31, 32, 33, then 0..70 appended bits (AppendBit, AppendBits in groups of 10, and groups of ten zero bits as AppendBits(0, 10)) - are folded from the source with their real storage (constructor, ensureCapacity and makeArray included, so whatever spare words the growth policy leaves are there), then reversed: after every history the size is the number of bits put in, bit i of the store is the model's bit for i < size and clear for every i from size to the end of the store, and after Reverse bit i is the model's bit size-1-i; dst.AppendBitArray(src), for empty and non-empty dst, leaves dst holding both bit strings, src unchanged, and the two arrays independent (a bit flipped in one does not show in the other)", 1)
 	key := "gozxing.BitArray/histories"
 	need := map[string]*ast.FuncDecl{}
 	var pk *packages.Package
@@ -1624,7 +1641,8 @@ func checkBitArrayHistories(c *Ctx, r *Report) {
 	starts := []start{{"NewEmptyBitArray", 0}, {"NewBitArray", 0}, {"NewBitArray", 1}, {"NewBitArray", 31}, {"NewBitArray", 32}, {"NewBitArray", 33}}
 	maxApp := int64(70)
 	for _, st := range starts {
-		for _, grouped := range []bool{false, true} {
+		for mode := 0; mode < 3; mode++ {
+			grouped, zeros := mode > 0, mode == 2 // mode 2: every group is AppendBits(0, 10), the way padding is appended
 			if bad != "" {
 				break
 			}
@@ -1650,6 +1668,9 @@ func checkBitArrayHistories(c *Ctx, r *Report) {
 				what := fmt.Sprintf("%s then %d bits appended", desc, k)
 				if grouped {
 					what += " in groups of 10"
+				}
+				if zeros {
+					what += ", all of them zero (AppendBits(0, 10))"
 				}
 				if bad = check(what, arr, model, false); bad != "" {
 					break
@@ -1681,7 +1702,7 @@ func checkBitArrayHistories(c *Ctx, r *Report) {
 				if grouped {
 					var v int64
 					for j := int64(0); j < 10; j++ {
-						b := pattern(int64(len(model)))
+						b := pattern(int64(len(model))) && !zeros
 						model = append(model, b)
 						v <<= 1
 						if b {
@@ -1897,4 +1918,154 @@ func checkSetRowWhole(c *Ctx, r *Report) {
 		}
 	}
 	reportFold(r, c, "S-SETROW", key, fd.Pos(), bad)
+}
+
+// S-PARSE: the constructors that build a matrix from a grid of booleans and from its string form
+func checkMatrixParse(c *Ctx, r *Report) {
+	r.Rule("S-PARSE", "ParseBoolMapToBitMatrix, folded from source (with NewBitMatrix and Set) on grids of width 1, 20, 31, 32, 33, 64 and 65 and height 2, builds the matrix of that size whose store holds exactly the grid's cells and nothing beyond the width; BitMatrix.ToString folded on such a matrix writes one line per row, two characters per cell; and ParseStringToBitMatrix folded on that very string gives the matrix back (Parse(ToString(m)) = m) - for every width, the multiples of the 32-bit word included", 3)
+	pfd, pp := c.funcDeclOf("", "ParseBoolMapToBitMatrix")
+	sfd, sp := c.funcDeclOf("", "ParseStringToBitMatrix")
+	tfd, tp := c.funcDeclOf("", "BitMatrix.ToString")
+	if pfd == nil || sfd == nil || tfd == nil {
+		r.AnchorLost("S-PARSE", "gozxing.ParseBoolMapToBitMatrix / ParseStringToBitMatrix / BitMatrix.ToString", "function not found")
+		return
+	}
+	pat := func(x, y int64) bool { return (x*7+y*13+x*y+x/31)%3 != 1 }
+	const hgt = int64(2)
+	widths := []int64{1, 20, 31, 32, 33, 64, 65}
+	// model check of a folded matrix value
+	checkM := func(what string, m *Val, w int64) string {
+		if m == nil || m.K != VStruct || m.Fields["bits"] == nil || !m.Fields["width"].isInt() || !m.Fields["height"].isInt() || !m.Fields["rowSize"].isInt() {
+			return "?" + what + ": the result is not a matrix value"
+		}
+		if m.Fields["width"].I != w || m.Fields["height"].I != hgt {
+			return fmt.Sprintf("%s: the matrix is %d x %d, the grid %d x %d", what, m.Fields["width"].I, m.Fields["height"].I, w, hgt)
+		}
+		rs := m.Fields["rowSize"].I
+		ws, ok := listInts(m.Fields["bits"])
+		if !ok || rs != (w+31)/32 || int64(len(ws)) != rs*hgt {
+			return fmt.Sprintf("?%s: row size %d / %d words for a %d x %d matrix", what, rs, len(ws), w, hgt)
+		}
+		for y := int64(0); y < hgt; y++ {
+			for x := int64(0); x < rs*32; x++ {
+				got := uint32(ws[y*rs+x/32])>>(uint(x)%32)&1 == 1
+				want := x < w && pat(x, y)
+				if got != want {
+					if x >= w {
+						return fmt.Sprintf("%s: bit %d of row %d is set, beyond the width %d", what, x, y, w)
+					}
+					return fmt.Sprintf("%s: cell (%d, %d) is %v, the grid holds %v", what, x, y, got, want)
+				}
+			}
+		}
+		return ""
+	}
+	hooks := func() *rpf {
+		h := &rpf{unroll: 100000, maxSteps: 2000000, effectCalls: true, env: map[types.Object]*Val{}}
+		h.callHook = func(rr *rpf, call *ast.CallExpr, callee types.Object) (*Val, bool) {
+			return errCtorHook(rr, call, callee)
+		}
+		return h
+	}
+	// ---- from a grid
+	key := "gozxing.ParseBoolMapToBitMatrix/whole"
+	r.Analysed(key)
+	bad := ""
+	mats := map[int64]*Val{}
+	for _, w := range widths {
+		grid := &Val{K: VList}
+		for y := int64(0); y < hgt; y++ {
+			row := &Val{K: VList}
+			for x := int64(0); x < w; x++ {
+				row.L = append(row.L, vbool(pat(x, y)))
+			}
+			grid.L = append(grid.L, row)
+		}
+		res, err := c.rpfCall(pfd, pp, []*Val{grid}, hooks())
+		what := fmt.Sprintf("a grid %d wide and %d high", w, hgt)
+		if err != nil {
+			if strings.Contains(err.Error(), "out of range") {
+				bad = what + ": " + err.Error() + " - a run-time panic"
+			} else {
+				bad = "?" + what + ": " + err.Error()
+			}
+			break
+		}
+		if len(res) != 2 || res[1].K != VNil {
+			bad = what + " is refused"
+			break
+		}
+		if bad = checkM(what, res[0], w); bad != "" {
+			break
+		}
+		mats[w] = res[0]
+	}
+	reportFold(r, c, "S-PARSE", key, pfd.Pos(), bad)
+	// ---- to a string and back
+	tkey, skey := "gozxing.BitMatrix.ToString/whole", "gozxing.ParseStringToBitMatrix/whole"
+	r.Analysed(tkey)
+	r.Analysed(skey)
+	tbad, sbad := "", ""
+	for _, w := range widths {
+		// the matrix the first part built, or (if that failed) one built here
+		m := mats[w]
+		if m == nil {
+			rs := (w + 31) / 32
+			words := &Val{K: VList}
+			for y := int64(0); y < hgt; y++ {
+				for k := int64(0); k < rs; k++ {
+					var word uint32
+					for b := int64(0); b < 32; b++ {
+						if x := k*32 + b; x < w && pat(x, y) {
+							word |= 1 << uint(b)
+						}
+					}
+					words.L = append(words.L, &Val{K: VInt, I: int64(word), T: types.Typ[types.Uint32]})
+				}
+			}
+			m = &Val{K: VStruct, Ptr: true, Fields: map[string]*Val{"width": vint(w), "height": vint(hgt), "rowSize": vint(rs), "bits": words}}
+		}
+		h := hooks()
+		h.env[recvObj(tp, tfd)] = m
+		res, err := c.rpfCall(tfd, tp, []*Val{vstr("X "), vstr("  ")}, h)
+		what := fmt.Sprintf("a matrix %d wide and %d high", w, hgt)
+		if err != nil || len(res) != 1 || res[0].K != VStr {
+			tbad = fmt.Sprintf("?%s: ToString does not fold to a string (%v)", what, err)
+			break
+		}
+		want := ""
+		for y := int64(0); y < hgt; y++ {
+			for x := int64(0); x < w; x++ {
+				if pat(x, y) {
+					want += "X "
+				} else {
+					want += "  "
+				}
+			}
+			want += "\n"
+		}
+		if res[0].S != want {
+			tbad = fmt.Sprintf("%s: ToString(\"X \", \"  \") gives %q, expected %q", what, res[0].S, want)
+			break
+		}
+		if sbad != "" {
+			continue
+		}
+		pres, err := c.rpfCall(sfd, sp, []*Val{vstr(want), vstr("X "), vstr("  ")}, hooks())
+		if err != nil {
+			if strings.Contains(err.Error(), "out of range") {
+				sbad = what + ", parsed from its string form: " + err.Error() + " - a run-time panic"
+			} else {
+				sbad = "?" + what + ", parsed from its string form: " + err.Error()
+			}
+			continue
+		}
+		if len(pres) != 2 || pres[1].K != VNil {
+			sbad = what + ": its own string form is refused"
+			continue
+		}
+		sbad = checkM(what+", parsed from its string form", pres[0], w)
+	}
+	reportFold(r, c, "S-PARSE", tkey, tfd.Pos(), tbad)
+	reportFold(r, c, "S-PARSE", skey, sfd.Pos(), sbad)
 }
